@@ -1,5 +1,8 @@
 pub mod bfs;
 pub mod common;
+pub mod rtok;
+pub mod tokh;
+pub mod c01;
 pub mod c11;
 pub mod c12;
 pub mod c13;
@@ -7,6 +10,8 @@ pub mod c13;
 use common::*;
 pub fn run(ctx: &Ctx) -> ! {
     match ctx.prop.as_str() {
+        "C01" => c01::main(ctx, false),
+        "C09" => c01::main(ctx, true),
         "C11" => c11::main(ctx),
         "C12" => c12::main(ctx),
         "C13" => c13::main(ctx),
@@ -16,6 +21,8 @@ pub fn run(ctx: &Ctx) -> ! {
 pub fn replay(ctx: &Ctx, v: &serde_json::Value, witness: &str) {
     let check = v["check"].as_str().unwrap_or(&ctx.prop).to_string();
     match check.as_str() {
+        "C01" => c01::replay(ctx, v, false),
+        "C09" => c01::replay(ctx, v, true),
         "C11" => c11::replay_with(ctx, witness, &c11::NoMonitor),
         "C12" => c12::replay(ctx, witness),
         "C13" => c13::replay(ctx, witness),
